@@ -194,7 +194,7 @@ void optional_apply()
   arg_opt<C1>(o0, 0, h0, m);
   arg_opt<C2>(o1, 1, h1, m);
   if constexpr (C1 == RV || C2 == RV) verif_assert(g_copies == 0, m.nocopy);
-  verif_assert(g_errors == 0, m.noerr);
+  verif_assert(g_errors == 0 && g_lvalue_calls == 0, m.noerr);
   verif_reach("end");
 }
 
@@ -253,7 +253,7 @@ void optional_combine()
   arg_opt<C1>(o0, 0, h0, m);
   arg_opt<C2>(o1, 1, h1, m);
   if constexpr (C1 == RV && C2 == RV) verif_assert(g_copies == 0, m.nocopy);
-  verif_assert(g_errors == 0, m.noerr);
+  verif_assert(g_errors == 0 && g_lvalue_calls == 0, m.noerr);
   verif_reach("end");
 }
 
@@ -500,7 +500,7 @@ void either_apply()
   arg_ei<C1>(e0, s0, 0, 1, m);
   arg_ei<C2>(e1, s1, 2, 3, m);
   if constexpr (C1 == RV && C2 == RV) verif_assert(g_copies == 0, m.nocopy);
-  verif_assert(g_errors == 0, m.noerr);
+  verif_assert(g_errors == 0 && g_lvalue_calls == 0, m.noerr);
   verif_reach("end");
 }
 
